@@ -17,7 +17,9 @@ Workload : seeded well-formed FlowIR documents (checks/_c11_gen.py: 2-7 componen
            the index variable at the place of use; the reference faults also through variables: a variable
            whose value names a missing producer, a spelled-out reference replaced by one that reaches the
            missing producer through a new variable, a back edge / self reference held in a new variable, the
-           variable of a reference removed.
+           variable of a reference removed; the variable `replica`: the replication that defines it removed
+           (replicate missing / 0 / null) from a component that uses it, `%(replica)s` used (arguments, array
+           index, executable, component / global variable) by a component outside any replication.
 Observed : WorkflowGraph.graphFromFlowIR(doc, manifest, primitive=False)            (dictionary API)
            ExperimentConfigurationFactory.configurationForExperiment(pkg, validate=True, primitive=False)
                                                                                      (file API, package on disk)
@@ -54,6 +56,7 @@ K_BOOLWORD = "C11:aggregate-word-accepted"
 K_RAWCTOR = "C11:dict-api-concrete-constructor-raw-exception"
 K_VARCYCLE = "C11:cycle-through-variable-spelled-reference"
 K_REPLFLOAT = "C11:replicate-fractional-float-truncated"
+K_REPLICAVAR = "C11:replica-variable-outside-replication"
 
 
 from checks import _c11_watchdog as WD  # noqa: E402
@@ -341,7 +344,20 @@ def classify(mut, out_by_api, case=None):
             and isinstance(mut.get("value"), float) and mut["value"] != int(mut["value"]) and mut["value"] >= 1
             and all(o["status"] == "accepted" for o in out_by_api.values())):
         return K_REPLFLOAT
-    # dictionary API only: FlowIRConcrete(...) is constructed by graphFromFlowIR outside any error collection,
+    # `replica` is only defined inside replicas, but FlowIRConcrete.validate always resolves components as if the
+    # workflow were still primitive (is_primitive=True tolerates an unknown `replica`): a component outside any
+    # replication that uses it is accepted and fails later (configurationForNode), or - dictionary API, array index -
+    # raises the bare ValueError of FlowIR.interpolate while the graph is built
+    if mut["kind"] in ("remove-replication", "replica-outside-replication") and mut.get("class") == "undefined-variable":
+        def about_replica(o):
+            if o["status"] == "accepted":
+                ps = o.get("problems") or []
+                return bool(ps) and all(("replica" in p_) and ("FlowIRVariableUnknown" in p_ or "ValueError: ArrayIndex" in p_) for p_ in ps)
+            return (o["status"] == "other" and o["type"] == "ValueError" and o["msg"].startswith('ArrayIndex "replica"')
+                    and "flowir.py:interpolate" in (o.get("frames") or []))
+        if all(about_replica(o) or o["status"] == "rejected" for o in out_by_api.values()) \
+                and any(about_replica(o) for o in out_by_api.values()):
+            return K_REPLICAVAR
     # so a non-FlowIR exception raised while it indexes a wrongly typed 'references' / 'stage' escapes as is
     o = out_by_api.get("dict")
     if (mut["kind"] == "wrong-type" and path in (["references"], ["stage"]) and o is not None
@@ -376,7 +392,7 @@ def mut_key(m, base):
 
 
 ALWAYS_FILE_API = ("duplicate-id", "remove-index-variable", "remove-array-variable", "rename-index-at-use",
-                   "rename-array-at-use", "index-out-of-range")
+                   "rename-array-at-use", "index-out-of-range", "remove-replication", "replica-outside-replication")
 # mutants whose fault sits in / behind a reference spelled with a variable: every second one also on the file API
 SPELLED_KINDS = ("back-edge-through-variable", "self-reference-through-variable", "rename-reference-in-variable",
                  "rename-reference-through-variable", "remove-reference-variable")
@@ -609,6 +625,8 @@ def main():
     for kind in ("remove-index-variable", "remove-array-variable", "rename-index-at-use", "rename-array-at-use"):
         c.floor("mutant_" + kind, 300 if thorough else 40)
     c.floor("base_with_array_variables", 300 if thorough else 60)
+    c.floor("mutant_replica-outside-replication", 3000 if thorough else 400)
+    c.floor("mutant_remove-replication", 150 if thorough else 15)
     # classes of mistyped options (documented type <- kind of value), and where they are written
     for cls_, q, t in (("nonintegral-float-for-int", 80, 1500), ("nonintegral-numeric-string-for-int", 60, 1200),
                        ("word-for-int", 60, 1200), ("nonintegral-float-for-bool", 25, 500), ("word-for-bool", 40, 800),
